@@ -80,10 +80,12 @@ def units(tier):
           R('auto coef = x.get_coef();', 'RCPBasic coef = x.get_coef();', n='*', why="auto -> explicit type"),
           R('auto dict = x.get_dict();', 'term_dict dict = x.get_dict();', n='*', why="auto -> explicit type")]
     comb_pieces = [Piece(TV, r'void RealVisitor::bvisit\(const Add &x\)', rules=RF + BV2), Piece(TV, r'void RealVisitor::bvisit\(const Mul &x\)', rules=RF + BV2),
-                   Piece(TV, r'void PositiveVisitor::bvisit\(const Add &x\)', rules=RF + BV2)]
+                   Piece(TV, r'void PositiveVisitor::bvisit\(const Add &x\)', rules=RF + BV2),
+                   Piece(TV, r'void IntegerVisitor::bvisit\(const Add &x\)', rules=RF + BV2), Piece(TV, r'void IntegerVisitor::bvisit\(const Mul &x\)', rules=RF + BV2),
+                   Piece(TV, r'void ComplexVisitor::bvisit\(const Add &x\)', rules=RF + BV2), Piece(TV, r'void ComplexVisitor::bvisit\(const Mul &x\)', rules=RF + BV2)]
     comb = Unit('combination_rules', 'C34', 'contracts/C34/combination.cpp', {'tribool.inc': tribool_pieces(), 'rules.inc': comb_pieces},
                 [Entry(h, route='B', timeout=600, unwind=5, defines={'MAXT': 2}, bounds="at most 2 terms/factors (3 arguments for Add::get_args), ghost values re, im in [-2,2] ([-3,3] for the positivity rule)")
-                 for h in ('h_real_mul', 'h_real_add', 'h_positive_add')], route='B',
+                 for h in ('h_real_mul', 'h_real_add', 'h_positive_add', 'h_integer_add_mul', 'h_complex_add_mul')], route='B',
                 trusted=["the recursive calls accept()/check_power()/NegativeVisitor::apply() on a child are replaced by their CONTRACT: any sound answer about the child's ghost value (induction hypothesis)",
                          "Add/Mul stubs: coefficient, term dictionary, get_args; Add/Mul type invariants (non-empty dictionary, non-zero Mul coefficient) assumed as preconditions"],
                 assumptions=["Integer/Rational/Complex/Algebraic/Polynomial visitors' Add/Mul/Pow rules, check_power bodies, Assumptions::is_* and function-specific rules are not under contract"])
